@@ -66,6 +66,26 @@ fn check_point(ctx: &mut Ctx, g: &Game, m: &GameModel, fen_clock: u32, case: &dy
         };
         ctx.fail(sig, format!("can_declare_draw() = {}, expected {}: {}", got, cs, why), case())?;
     }
+    // once a game has a result nothing can be claimed any more, however the result came about: on
+    // copies of the game a pending offer is accepted (where the library accepts it) and a side
+    // resigns, and the claim is asked again
+    for way in 0..2 {
+        let mut g3 = g.clone();
+        let ended = if way == 0 { g3.accept_draw() } else { g3.resign(bridge::col(m.pos.stm)) };
+        if ended && g3.result().is_some() {
+            ctx.class(if way == 0 { "point:claim-asked-again-after-accepted-draw" } else { "point:claim-asked-again-after-resignation" });
+            let n = g3.actions().len();
+            let again = g3.can_declare_draw();
+            let claimed = g3.declare_draw();
+            if again || claimed || g3.actions().len() != n {
+                ctx.fail(
+                    "draw:claim-allowed-after-result",
+                    format!("after {} the game has the result {:?}, yet can_declare_draw() = {} and declare_draw() = {} (it was {} before)", if way == 0 { "accept_draw()" } else { "resign()" }, g3.result(), again, claimed, got),
+                    case(),
+                )?;
+            }
+        }
+    }
     // claiming on a copy of the game
     let mut g2 = g.clone();
     let before: Vec<Act> = g2.actions().iter().map(lib_act).collect();
@@ -243,7 +263,7 @@ pub fn run(cfg: &Cfg) -> i32 {
     engine::finish(
         report,
         EvidenceSpec {
-            rule: "cases = game histories of 100-260 half-moves played inside a Game under policies that avoid pawn moves and captures (never creating a third occurrence / seeking repetitions / plain reversible; 1 ply in 32 is unconstrained), with unanswered draw offers interleaved (about one half-move in six), from positions with castling rights to lose (games loaded from text carry generated clocks and, where a standard writer would put one, an uncapturable en-passant square), bare-piece endgames, the initial position and generated valid positions; after every half-move can_declare_draw() is compared with the draw model (no result, and >= 3 occurrences of the current position in the whole game or >= 100 half-moves without pawn move or capture) and declare_draw() on a copy of the game must return the same answer, append DeclareDraw / set DrawDeclared / refuse all further actions on success and change nothing on refusal. evaluations = query points. Non-trivial = history with >= 90 consecutive reversible half-moves, a threefold occurrence, or a castling right lost inside a counted stretch of >= 20; distinct = history fingerprints.".into(),
+            rule: "cases = game histories of 100-260 half-moves played inside a Game under policies that avoid pawn moves and captures (never creating a third occurrence / seeking repetitions / plain reversible; 1 ply in 32 is unconstrained), with unanswered draw offers interleaved (about one half-move in six), from positions with castling rights to lose (games loaded from text carry generated clocks and, where a standard writer would put one, an uncapturable en-passant square), bare-piece endgames, the initial position and generated valid positions; after every half-move can_declare_draw() is compared with the draw model (no result, and >= 3 occurrences of the current position in the whole game or >= 100 half-moves without pawn move or capture) and declare_draw() on a copy of the game must return the same answer, append DeclareDraw / set DrawDeclared / refuse all further actions on success and change nothing on refusal; on further copies a pending offer is accepted and a side resigns, after which no claim may succeed. evaluations = query points. Non-trivial = history with >= 90 consecutive reversible half-moves, a threefold occurrence, or a castling right lost inside a counted stretch of >= 20; distinct = history fingerprints.".into(),
             assumptions: vec![
                 "position identity is computed twice (strict: en-passant state recorded; FIDE: en-passant only when a capture is legal); points where the two disagree are counted and not asserted".into(),
                 "reference rules engine and game model".into(),
